@@ -207,10 +207,11 @@ def Tok.good : Tok → Bool
 /-- The domain of C08 (`RuleRegex`): `p` is the rendering of good tokens. -/
 def GoodPat (p : List Char) : Prop := ∃ ts : List Tok, p = render ts ∧ ∀ t ∈ ts, t.good = true
 
-/-- Executable version of `GoodPat` (equivalent: Proofs/Regex.lean `goodPatB_iff`). -/
+/-- Executable version of `GoodPat` (equivalent: Proofs/RegexTok.lean `goodPatB_iff`; the test
+`render ts == p` always succeeds and is there to make that equivalence immediate). -/
 def goodPatB (p : List Char) : Bool :=
   match tokTop p with
-  | some ts => ts.all Tok.good
+  | some ts => ts.all Tok.good && render ts == p
   | none => false
 
 /-- The pattern tokenises under the real syntax but the tree's scanner mis-brackets one of its
